@@ -16,12 +16,12 @@ for d in sorted(glob.glob(os.path.join(VERIF, "seeded", "C*-*"))):
             parts.append("%s: %s" % (c, ("VIOLATION x%d (%s)%s" % (v["violations"], ", ".join(sorted(set(x for x in v["classes"] if x)))[:90],
                                                               "" if v["with_failing_input"] else " no-failing-input-found") if v["violations"] else "passes")))
         res = "; ".join(parts)
-    rows.append((name, "round %d" % (1 if int(name.split("-")[1]) <= 3 else 2 if int(name.split("-")[1]) <= 6 else (3 if name.split("-")[0] in R3 else 4)), ", ".join(r.get("caught_by", [])) or "**not caught (quick tier)**", res, what))
+    rows.append((name, "round %d" % (1 if int(name.split("-")[1]) <= 3 else 2 if int(name.split("-")[1]) <= 6 else 5 if int(name.split("-")[1]) >= 10 else (3 if name.split("-")[0] in R3 else 4)), ", ".join(r.get("caught_by", [])) or "**not caught (quick tier)**", res, what))
 caught = sum(1 for r in rows if not r[2].startswith("**"))
 out = ["# Seeded changes", "",
        "Each directory holds `patch.diff` (against /repo), `demo.py` (passes on the clean tree, fails with the patch) and `meta.json`.",
        "Written by fresh sub-agents that saw only the property text and a scratch worktree; validated (demo clean/patched, pytest pass-set unchanged) before use.",
-       "Replayed by `harness/seed_replay.py`: patch applied to /repo, registered quick check(s) run (`VERIF_NO_EVIDENCE=1`), patch reverted. /repo commit of the replay: %s." % (
+       "Replayed by `harness/seed_replay_wt.py` (each patch applied in its own scratch worktree of /repo HEAD, the registered quick check(s) run against it through `DREYE_REPO`, `VERIF_NO_EVIDENCE=1`); `harness/seed_replay.py` does the same on /repo itself (112 of the changes were also replayed that way in this session, with the same outcome). /repo commit of the replay: %s." % (
            sorted(set(v.get("repo", "?") for v in rep.values()))),
        "", "%d of %d stored changes are caught by a registered quick check." % (caught, len(rows)), "",
        "| change | round | caught by | detail | what the change does |", "|---|---|---|---|---|"]
